@@ -6,7 +6,7 @@ import "errors"
 
 // C17: bulk build, copy and byte conversion.
 
-//vh:prop C17 C05 C09
+//vh:prop C17 C05 C09 C06
 //vh:param n 7 10
 func VH_C17_ArrayBatch() {
 	T := uint32(256)
@@ -55,7 +55,7 @@ func vhIsDuplicateKey(err error) bool {
 	return errors.As(err, &e)
 }
 
-//vh:prop C17 C05 C09
+//vh:prop C17 C05 C09 C06
 //vh:param n 3 4
 func VH_C17_MapBatch() {
 	vhSetThreshold(256)
@@ -208,7 +208,7 @@ func (b vByte) Storable(SlabStorage, Address, uint32) (Storable, error) {
 	return b, nil
 }
 
-//vh:prop C17
+//vh:prop C17 C09
 //vh:param n 6 12
 func VH_C17_Bytes() {
 	vhSetThreshold(256)
